@@ -674,15 +674,31 @@ func rulesC09(c *Ctx) {
 	}
 	if fn := c.MustFunc("C09.d", "scheduler.PartitionContext.allocate"); fn != nil {
 		calls := p.callsIn(fn, "scheduler.PartitionContext.unReserve")
+		n := 0
 		for _, call := range calls {
 			st := p.StateAt(fn, call)
-			ok := p.Holds(st, func(a Atom) bool {
-				op, x, y, okc := p.cmpParts(a)
-				return okc && op == tokEQL && strings.HasSuffix(p.Src(x), "ResultType") && (p.Src(y) == "objects.Unreserved" || p.Src(y) == "objects.AllocatedReserved")
-			})
+			isType := func(names ...string) Req {
+				return func(a Atom) bool {
+					op, x, y, okc := p.cmpParts(a)
+					if !okc || op != tokEQL || !a.Val || !strings.HasSuffix(p.Src(x), "ResultType") {
+						return false
+					}
+					for _, nm := range names {
+						if p.Src(y) == nm {
+							return true
+						}
+					}
+					return false
+				}
+			}
+			if p.Holds(st, isType("objects.Reserved")) {
+				continue // moving a reservation to another node while reserving (C09.j), not the release of a served one
+			}
+			n++
+			ok := p.Holds(st, isType("objects.Unreserved", "objects.AllocatedReserved"))
 			c.Check("C09.d", "allocate() un-reserves for Unreserved / AllocatedReserved results", call, ok, "unReserve in allocate() is no longer tied to the Unreserved/AllocatedReserved result types; facts: %v", p.FactStrings(st))
 		}
-		c.Floor("C09.d", "unReserve in PartitionContext.allocate", len(calls), 1)
+		c.Floor("C09.d", "unReserve in PartitionContext.allocate", n, 1)
 	}
 	if fn := c.MustFunc("C09.d", "objects.Application.tryReservedAllocate"); fn != nil {
 		calls := p.callsIn(fn, "objects.newUnreservedAllocationResult")
